@@ -23,8 +23,12 @@ Remove(s, i) == SubSeq(s, 1, i - 1) \o SubSeq(s, i + 1, Len(s))
 Init == /\ l = 1 /\ run = -1 /\ cfg = [x |-> 0] /\ viol = <<>> /\ hits = [r \in Rules |-> 0] /\ nruns = 0
         /\ learned = <<>> /\ lastDisc = <<>> /\ acc = [s \in SOCKS |-> <<>>] /\ wpos = [s \in SOCKS |-> 0] /\ rxq = [s \in SOCKS |-> <<>>]
 
-OnLink(ip) == ip[1] = cfg.net[1] /\ ip[2] = cfg.net[2] /\ ip[3] = cfg.net[3]
-IsBcast(ip) == ip = <<255, 255, 255, 255>> \/ (OnLink(ip) /\ ip[4] = 255)
+\* a second own address on a /31 point-to-point subnet in some runs: cfg.p2p = <<ours, peer>>; such a subnet has no
+\* broadcast address, its peer is an ordinary on-link unicast destination
+P2P == "p2p" \in DOMAIN cfg /\ cfg.p2p # <<>>
+MyIps == {cfg.my_ip} \cup (IF P2P THEN {cfg.p2p[1]} ELSE {})
+OnLink(ip) == (ip[1] = cfg.net[1] /\ ip[2] = cfg.net[2] /\ ip[3] = cfg.net[3]) \/ (P2P /\ ip = cfg.p2p[2])
+IsBcast(ip) == ip = <<255, 255, 255, 255>> \/ (OnLink(ip) /\ ip[4] = 255 /\ ~(P2P /\ ip = cfg.p2p[2]))
 IsMcast(ip) == ip[1] >= 224 /\ ip[1] <= 239
 Matches(rt, ip, now) == /\ (rt.exp = -1 \/ now <= rt.exp)
                         /\ (rt.plen = 0 \/ (rt.plen = 24 /\ ip[1] = rt.p[1] /\ ip[2] = rt.p[2] /\ ip[3] = rt.p[3]) \/ (rt.plen = 32 /\ ip = rt.p))
@@ -41,7 +45,7 @@ Learn(lrn, ip, mac, now) == LET i == Idx(lrn, LAMBDA x : x.ip = ip) IN
                             (IF i = 0 THEN lrn ELSE Remove(lrn, i)) \o <<[ip |-> ip, mac |-> mac, t |-> now]>>
 Teach(lrn, g, now) ==
   IF "et" \notin DOMAIN g THEN lrn
-  ELSE IF ~V6 /\ g.et = "arp" /\ g.tpa = cfg.my_ip /\ g.op \in {1, 2} /\ g.shau /\ OnLink(g.spa) /\ g.spa[4] \notin {0, 255} /\ g.spa # cfg.my_ip THEN
+  ELSE IF ~V6 /\ g.et = "arp" /\ g.tpa \in MyIps /\ g.op \in {1, 2} /\ g.shau /\ OnLink(g.spa) /\ g.spa[4] \notin {0, 255} /\ g.spa # cfg.my_ip THEN
        Learn(lrn, g.spa, g.sha, now)
   \* neighbour discovery: a solicitation teaches its source, an advertisement its source or its target (the more
   \* permissive reading); any unicast link-layer address option counts as validated
@@ -56,16 +60,18 @@ Teach(lrn, g, now) ==
 RECURSIVE TeachAll(_, _, _)
 TeachAll(lrn, rx, now) == IF rx = <<>> THEN lrn ELSE TeachAll(Teach(lrn, Head(rx), now), Tail(rx), now)
 \* inbound datagrams for our sockets: rx queue model per socket
+BcastDst == {<<10, 0, 0, 255>>, <<255, 255, 255, 255>>, <<224, 0, 0, 1>>}
 RECURSIVE InjectAll(_, _)
 InjectAll(q, rx) ==
   IF rx = <<>> THEN q
   ELSE LET g == Head(rx)
-           isDg == "et" \in DOMAIN g /\ g.et = "ip4" /\ "sk" \in DOMAIN g /\ g.dst = cfg.my_ip /\ g.did >= 0 /\ g.cs /\ g.wf
+           \* (UDP sockets, bound to the port alone or to our address, also take broadcast / all-nodes datagrams)
+           isDg == "et" \in DOMAIN g /\ g.et = "ip4" /\ "sk" \in DOMAIN g /\ (g.dst = cfg.my_ip \/ (g.sk \in {0, 1} /\ g.dst \in BcastDst)) /\ g.did >= 0 /\ g.cs /\ g.wf
        IN IF ~isDg THEN InjectAll(q, Tail(rx))
           ELSE LET s == g.sk
                    sc == cfg.socks[s + 1]
                    must == q[s] = <<>> /\ g.size <= sc.rxp /\ sc.rxm >= 1
-               IN InjectAll([q EXCEPT ![s] = Append(@, [did |-> g.did, must |-> must, size |-> g.size, src |-> g.src, sport |-> g.sport])], Tail(rx))
+               IN InjectAll([q EXCEPT ![s] = Append(@, [did |-> g.did, must |-> must, size |-> g.size, src |-> g.src, sport |-> g.sport, dst |-> g.dst])], Tail(rx))
 
 \* ---- emitted frames: fold with state a = [lrn (unchanged), disc, wpos, v]
 OutStep(a, o, now) ==
@@ -78,7 +84,7 @@ OutStep(a, o, now) ==
            \* discovery requests (for any target) are at least one second apart
            recent == {j \in 1..Len(a.disc) : now - a.disc[j].t < 1000}
            n3 == P("N3", o.op # 1 \/ recent = {}, <<o.tpa, IF recent = {} THEN -1 ELSE now - a.disc[CHOOSE j \in recent : TRUE].t, IF i \in recent THEN "same-target" ELSE "other-target">>)
-           e3 == P("E3", o.spa = cfg.my_ip /\ o.sha = cfg.my_mac /\ o.smac = cfg.my_mac, <<"arp", o.spa>>)
+           e3 == P("E3", o.spa \in MyIps /\ o.sha = cfg.my_mac /\ o.smac = cfg.my_mac, <<"arp", o.spa>>)
        IN [a EXCEPT !.disc = IF o.op # 1 THEN @ ELSE (IF i = 0 THEN @ ELSE Remove(@, i)) \o <<[tpa |-> o.tpa, t |-> now]>>,
                     !.v = @ \o e2 \o n3 \o e3]
   ELSE IF o.et = "ip4" /\ "dst" \in DOMAIN o THEN
@@ -88,7 +94,7 @@ OutStep(a, o, now) ==
            known == \E i \in 1..Len(a.lrn) : a.lrn[i].ip = nh /\ a.lrn[i].mac = o.dmac /\ now - a.lrn[i].t < 60000
            stale == \E i \in 1..Len(a.lrn) : a.lrn[i].ip = nh /\ a.lrn[i].mac = o.dmac
            n1 == P("N1", ~uni \/ nh = <<>> \/ known, <<o.dst, o.dmac, IF stale THEN "expired" ELSE IF ~o.dmu THEN "non-unicast-mac" ELSE "never-learned">>)
-           e3 == P("E3", (o.src = cfg.my_ip \/ ("exempt" \in DOMAIN o /\ o.exempt)) /\ o.smac = cfg.my_mac, <<"ip", o.src>>)
+           e3 == P("E3", (o.src \in MyIps \/ ("exempt" \in DOMAIN o /\ o.exempt)) /\ o.smac = cfg.my_mac, <<"ip", o.src>>)
            isMine == "sk" \in DOMAIN o /\ o.did >= 0
        IN IF ~isMine THEN [a EXCEPT !.v = @ \o e2 \o n2 \o n1 \o e3]
           ELSE LET s == o.sk
@@ -130,6 +136,7 @@ Step ==
                             ELSE IF skipped THEN << <<l, "D5", s, "lost-or-reordered", r.did>> >>
                             ELSE IF r.diff # -1 \/ r.size # q[i].size \/ r.sport # q[i].sport THEN << <<l, "D5", s, "altered", r.did, r.size, r.diff>> >>
                             ELSE IF "srct" \in DOMAIN r /\ r.srct # <<>> /\ r.srct # q[i].src THEN << <<l, "D5", s, "wrong-source", r.did, r.srct>> >>
+                            ELSE IF "localt" \in DOMAIN r /\ r.localt # <<>> /\ r.localt # q[i].dst THEN << <<l, "D5", s, "wrong-destination", r.did, r.localt, q[i].dst>> >>
                             ELSE <<>>
                       d6 == IF r.size > r.cap THEN << <<l, "D6", s, r.size, r.cap>> >> ELSE <<>>
                   IN /\ rxq' = [rxq EXCEPT ![s] = IF i = 0 THEN @ ELSE SubSeq(q, i + 1, Len(q))]
